@@ -41,6 +41,8 @@ K = {n: i for i, n in enumerate(KINDS)}
 #   ("seq", [...])                                several of the above in order
 #   ("store", path, value)                        writes a tracked field of a pre-existing object
 #   ("ktset", dst, lazy)                          ABTI_ktable_set[_unsafe]: create the table if dst is NULL, then add an element
+#   ("fstore", path, value)                       fallible; on success writes a tracked field of a pre-existing object
+#                                                 (the callee's own theorems say: untouched when it fails)
 PURE = ("pure",)
 CALLEES = {
     # --- primitives -------------------------------------------------------------------------
@@ -101,6 +103,8 @@ CALLEES = {
     "ABTI_thread_init_pool": ("fallible",),        # unit creation + unit map; undone by the callee itself on failure
     "ABTI_thread_set_associated_pool": ("fallible",),
     "ABTI_thread_get_mig_data": ("fallible",),                                 # *
+    "xstream_update_main_sched": ("fstore", "{3}->used", 1),                   # *  (ABTI_SCHED_MAIN; see enum check below)
+    "ABTI_sched_discard_and_free": ("rel", "{2}", True),     # the pending replacement scheduler (not tracked: lax)
     "ABTI_unit_map_thread": ("acq", "unitmap", "map:{1}"),
     "ABTI_ktable_create": ("acq", "ktable", "*{2}"),
     "ABTI_ktable_alloc_elem": ("fallible",),
@@ -148,7 +152,7 @@ PURE_NAMES = {
     "ABTI_thread_get_ythread_or_null", "ABTI_unit_is_builtin", "ABTI_ktable_is_valid", "ABTI_ktable_get_idx",
     "ABTI_key_get_ptr", "ABTI_thread_unset_request", "ABTI_thread_set_request", "unit_get_hash_index",
     "atomic_relaxed_load_unit_to_thread", "atomic_relaxed_load_unit", "atomic_relaxed_store_unit",
-    "atomic_release_store_unit_to_thread",
+    "atomic_release_store_unit_to_thread", "ABTI_ythread_resume_and_push", "ABTI_ythread_suspend_replace_sched",
 }
 # wrappers whose value *is* their first argument as far as the ledger is concerned
 IDENTITY = {"ABTI_sched_get_ptr", "ABTI_sched_get_handle", "ABTI_pool_get_ptr", "ABTI_pool_get_handle",
@@ -542,7 +546,7 @@ class Tr:
                 cls, _, _ = self.classify(e)
             except Unsupported:
                 return False
-            return cls[0] in ("acq", "err", "fallible", "ktset", "acqenv", "rel")
+            return cls[0] in ("acq", "err", "fallible", "fstore", "ktset", "acqenv", "rel")
         return False
 
     def intconst(self, e):
@@ -595,6 +599,15 @@ class Tr:
             self.emit("label", le)
         elif kind == "fallible":
             self.emit("fallible", site, err or self.ref(self.scratch()))
+        elif kind == "fstore":
+            e = err or self.ref(self.scratch())
+            self.emit("fallible", site, e)
+            path = self.subst(cls[1], call, fbase)
+            if path in self.tracked:
+                lskip = self.newlabel("fstore")
+                self.emit("br", ("cmp", "ne", e, 0), False, lskip)
+                self.emit("seti", self.ref(path), cls[2])
+                self.emit("label", lskip)
         elif kind == "err":
             if errvar:
                 self.emit("havoc", err, self.atom("%s fails @%s" % (name, call.get("rline", "?"))))
